@@ -263,7 +263,9 @@ def run(tier):
     run = core.Run(PROP, tier)
     ex1 = explorer.Explorer(menus.core_menu)
     s1 = ex1.run(1)
-    ex2 = explorer.Explorer(c19_slice)  # thorough: same states, all inputs, every index variant on every entry point
+    # quick: every other entry of the slice as first step, the whole slice as second step;
+    # thorough: the whole slice twice, all inputs, every index variant on every entry point
+    ex2 = explorer.Explorer((lambda c, r, d, h: (c19_slice(c, r, d, h)[::2] if d == 0 else c19_slice(c, r, d, h))) if tier == "quick" else c19_slice)
     s2 = ex2.run(2)
     seen = {}
     for s in s1 + s2:
